@@ -1061,6 +1061,29 @@ func (w *world) cursorRead(ctx context.Context, s, f int, min, max int64, asc bo
 	return out, cur.Err()
 }
 
+// postRead reads the point the harness writes after a recovery (measurement zpost, outside the model's domain).
+func (w *world) postRead() ([]model.Point, error) {
+	ctx := context.Background()
+	ci, err := w.sh.CreateCursorIterator(ctx)
+	if err != nil {
+		return nil, err
+	}
+	cur, err := ci.Next(ctx, &tsdb.CursorRequest{Name: []byte("zpost"), Tags: seriesTags(0), Field: "v", Ascending: true, StartTime: models.MinNanoTime, EndTime: models.MaxNanoTime})
+	if err != nil || cur == nil {
+		return nil, err
+	}
+	defer cur.Close()
+	var out []model.Point
+	if c, ok := cur.(cursors.FloatArrayCursor); ok {
+		for a := c.Next(); a.Len() > 0; a = c.Next() {
+			for i, t := range a.Timestamps {
+				out = append(out, model.Point{TS: t, ID: uint64(a.Values[i])})
+			}
+		}
+	}
+	return out, cur.Err()
+}
+
 // readAll reads every cell the history knows of, both directions.
 func (w *world) readAll(asOf uint64, who string) bool {
 	var keys []model.SF
@@ -1263,6 +1286,7 @@ func (w *world) recover(im image) {
 	f2 := &simfs.FS{Root: im.dir, Now: time.Now}
 	simfs.Activate(f2)
 	defer simfs.Activate(nil)
+	second := ""
 	if os.Getenv("DSIM_DEBUG") != "" {
 		filepath.Walk(im.dir, func(p string, info os.FileInfo, err error) error {
 			if err == nil && !info.IsDir() && !strings.Contains(p, "_series") && !strings.Contains(p, "/index/") {
@@ -1292,14 +1316,44 @@ func (w *world) recover(im image) {
 		} else {
 			// the shard must accept writes after recovery, and serve them
 			w2.nextID = 1 << 40
-			pt, _ := models.NewPoint("m0", seriesTags(0), models.Fields{"f0": float64(1 << 40)}, time.Unix(0, slotTS(nSlots+5)))
+			pt, _ := models.NewPoint("zpost", seriesTags(0), models.Fields{"v": float64(1 << 40)}, time.Unix(0, slotTS(nSlots+5)))
 			if err := w2.sh.WritePoints(context.Background(), []models.Point{pt}); err != nil {
 				r.Violate("C02:write-after-crash", "write-after-crash:"+im.kind, "write after recovery from [%s] failed: %v", im.ev, err)
-			} else if got, err := w2.cursorRead(context.Background(), 0, 0, slotTS(nSlots+5), slotTS(nSlots+5), true); err != nil || len(got) != 1 || got[0].ID != 1<<40 {
+			} else if got, err := w2.postRead(); err != nil || len(got) != 1 || got[0].ID != 1<<40 {
 				r.Violate("C02:write-after-crash", "read-after-crash:"+im.kind, "point written after recovery from [%s] reads back as %v (%v)", im.ev, got, err)
+			} else if !r.CfgBool("nosecondcrash") {
+				// second crash right after that acknowledged write (no close): it must survive as well
+				second = filepath.Join(r.Dir, "second-"+filepath.Base(im.dir))
+				if err := simfs.CopyTree(im.dir, second); err != nil {
+					second = ""
+				}
 			}
 		}
 		w2.close()
+	})
+	if second == "" || len(r.Viol) > 0 || r.Aborted {
+		return
+	}
+	defer os.RemoveAll(second)
+	f3 := &simfs.FS{Root: second, Now: time.Now}
+	simfs.Activate(f3)
+	r.Simulate(func() {
+		w3 := &world{r: r, h: w.h, opt: w.opt, typeOf: w.typeOf, idType: w.idType, touch: w.touch, accepted: w.accepted}
+		if err := w3.open(second); err != nil {
+			r.Violate("C02:reopen-error", "reopen-after-second-crash:"+im.kind, "shard does not open after a second crash that followed recovery from [%s]: %v", im.ev, err)
+			return
+		}
+		r.Probe("probe_second_crash_recoveries")
+		if got, err := w3.postRead(); err != nil || len(got) != 1 || got[0].ID != 1<<40 {
+			r.Violate("C02:lost-after-second-crash", "second-crash:"+im.kind, "a write acknowledged after recovery from [%s] is gone after a second crash: reads back as %v (%v)", im.ev, got, err)
+		} else {
+			before := len(r.Viol)
+			w3.readAll(im.cutSeq, "recovered-twice["+im.ev+"]")
+			for i := before; i < len(r.Viol); i++ {
+				r.Viol[i].Sig += ":second:" + im.kind
+			}
+		}
+		w3.close()
 	})
 }
 
